@@ -311,7 +311,20 @@ def window_nested_spec(draw):
     sub = {"name": "s1", "kind": "Strategy", "algos": [draw(gen.calendar_gate()), ["SelectThese", {"tickers": clean[:1]}], ["WeighEqually", {}], ["Rebalance", {}]], "children": clean[:1]}
     declare = draw(st.booleans())
     root = {"name": "root", "kind": "Strategy", "algos": [draw(gen.calendar_gate())] + sel + [["WeighEqually", {}], ["Rebalance", {}]], "children": [sub] + (list(tickers) if declare else [])}
-    return {"dates": ds, "prices": pr, "rng_seed": 0, "frames": {}, "additional": [], "integer_positions": draw(st.booleans()), "initial_capital": 1e6, "fee": {"kind": "none"}, "tree": root, "family": "window_nested"}
+    spec = {"dates": ds, "prices": pr, "rng_seed": 0, "frames": {}, "additional": [], "integer_positions": draw(st.booleans()), "initial_capital": 1e6, "fee": {"kind": "none"}, "tree": root, "family": "window_nested"}
+    lates = [t for t in tickers if pr[t][0] is None]
+    if lates and draw(st.integers(0, 3)) != 0:
+        # aim the cut at the first dates of a late listing and let that ticker lose its later rows in the second run: whether it has
+        # 'enough data' on those dates must be decided by the rows up to then
+        t = draw(st.sampled_from(lates))
+        first = next(i for i, v in enumerate(pr[t]) if v is not None)
+        spec["perturb"] = {
+            "cut": min(n - 2, first + draw(st.integers(0, 2))),
+            "factors": draw(st.lists(st.sampled_from([0.5, 0.9, 1.1, 2.0, 1.0, 0.0]), min_size=5, max_size=20)),
+            "list_early": draw(st.booleans()),
+            "delist": t,
+        }
+    return spec
 
 
 @st.composite
@@ -347,6 +360,8 @@ def pair_spec(draw):
         spec = draw(gen.backtest_spec(min_dates=4, max_dates=18, depth3=draw(st.integers(0, 5)) == 0))
         spec["family"] = "grammar"
     n = len(spec["dates"])
+    if "perturb" in spec:
+        return spec
     spec["perturb"] = {
         "cut": draw(st.integers(0, n - 2)),
         "factors": draw(st.lists(st.sampled_from([0.5, 0.7, 0.9, 0.97, 1.03, 1.1, 1.4, 2.0, 1.0, 0.0]), min_size=5, max_size=40)),
